@@ -9,57 +9,58 @@ WEIGHTS = [0, 10, 10, 10, 10, 10, 25, 25, 100, 300, 500, 4000, 10000, 20000, 500
 
 
 def c15_ancestor_not_later(ctx, v):
-    """two chains that share blocks 1..=f (f symbolic) and differ afterwards — at every height
-    above f the two nodes' longest-chain hashes differ in the two bytes the fork id samples
-    (a 2^-16 coincidence per checkpoint is assumed away) —, peer tip P and my tip M symbolic with
-    f <= min(P, M) and both tips <= 120 (thorough: 600; the sampling loop forks twice per checkpoint, so longer chains are outside the bound):
+    """two chains that share blocks 1..=f (f symbolic) and differ afterwards, peer tip P and my
+    tip M symbolic with f <= min(P, M) (tips up to 2^40):
         fid = peer.generate_fork_id(P);  a = mine.generate_last_shared_ancestor(P, fid)
     then a <= f  (a = 0 means "no shared ancestor found, sync from the start", also safe).
-    Both branches (peer ahead / peer behind) and every checkpoint pattern are covered; no
-    arithmetic panic."""
+    The two block rings are functions from heights to hashes, given to the code one sample at a
+    time; each new sample is related to all earlier ones as it is drawn: same chain and height
+    -> same hash; the two chains at the same height <= f -> same hash; any two different blocks
+    differ in every byte pair the fork id samples, and no sampled pair is (0,0) (hash
+    coincidences of probability 2^-16 per checkpoint are assumed away — stated).  Both modes
+    (peer ahead / peer behind), every break-out point of both loops and every checkpoint
+    pattern are covered; no arithmetic panic."""
     gen = ctx.body(r"blockchain::<impl at [^>]*>::generate_fork_id$")
     anc = ctx.body(r"blockchain::<impl at [^>]*>::generate_last_shared_ancestor$")
     f = z3.BitVec("fork_point", 64)
     P = z3.BitVec("peer_tip", 64)
     M = z3.BitVec("my_tip", 64)
-    LIMIT = 120 if ctx.tier == "quick" else 600
+    LIMIT = 1 << 40
     pre = [z3.ULE(f, P), z3.ULE(f, M), z3.ULE(P, LIMIT), z3.ULE(M, LIMIT), z3.UGE(P, 1), z3.UGE(M, 1)]
     import itertools
     counter = itertools.count()
+    sel = lambda b, k: z3.Select(b.arr, z3.BitVecVal(k, 64))
+
+    def relate(st, side, h, hv):
+        facts = [z3.Or(sel(hv, 2 * i) != 0, sel(hv, 2 * i + 1) != 0) for i in range(16)]
+        for e in st.events:
+            if e[0] != "ring":
+                continue
+            s2, h2, b2 = e[1], e[2][0].bv, e[2][1]
+            all_eq = z3.And(*[sel(hv, k) == sel(b2, k) for k in range(32)])
+            pairs_differ = z3.And(*[z3.Or(sel(hv, 2 * i) != sel(b2, 2 * i), sel(hv, 2 * i + 1) != sel(b2, 2 * i + 1)) for i in range(16)])
+            same_block = (h == h2) if s2 == side else z3.And(h == h2, z3.ULE(h, f))
+            facts.append(z3.If(same_block, all_eq, pairs_differ))
+        return facts
 
     def ring_hook(side, tip):
         def hook(ex_, st, callee, args, dty):
             if re.search(r"BlockRing::get_longest_chain_block_hash_at_block_id$", callee):
                 h = args[1]
-                hv = ex_.fresh_value("[u8; 32]", "%s_hash!%d" % (side, next(counter)))
-                st.events.append(("ring", side, [h, hv], None))
                 present = z3.And(z3.UGE(h.bv, 1), z3.ULE(h.bv, tip))
-                return ("__fork__", [(present, mk_some(dty, hv)), (z3.Not(present), mk_none(dty))])
+
+                def some(ex2, st2, arg):
+                    hv = ex2.fresh_value("[u8; 32]", "%s_hash!%d" % (side, next(counter)))
+                    st2.pc.extend(relate(st2, side, arg.bv, hv))
+                    st2.events.append(("ring", side, [arg, hv], None))
+                    return mk_some(dty, hv)
+                return ("__fork__", [(present, ("__thunk__", some, h)), (z3.Not(present), mk_none(dty))])
             if re.search(r"Blockchain::get_latest_block_id$|BlockRing::get_latest_block_id$", callee):
                 return S.I(tip)
             return None
         return hook
 
-    def chain_facts(events):
-        """what the sampled hashes must satisfy: each chain is a function of the height; the two
-        chains agree up to the fork point and differ, in every sampled byte pair, above it"""
-        samples = [(e[1], e[2][0].bv, e[2][1]) for e in events if e[0] == "ring"]
-        sel = lambda b, k: z3.Select(b.arr, z3.BitVecVal(k, 64))
-        facts = []
-        for x in range(len(samples)):
-            for y in range(x):
-                (s1, h1, b1), (s2, h2, b2) = samples[x], samples[y]
-                same_h = h1 == h2
-                all_eq = z3.And(*[sel(b1, k) == sel(b2, k) for k in range(32)])
-                if s1 == s2:
-                    facts.append(z3.Implies(same_h, all_eq))
-                else:
-                    facts.append(z3.Implies(z3.And(same_h, z3.ULE(h1, f)), all_eq))
-                    facts.append(z3.Implies(z3.And(same_h, z3.UGT(h1, f)), z3.And(*[z3.Or(sel(b1, 2 * i) != sel(b2, 2 * i), sel(b1, 2 * i + 1) != sel(b2, 2 * i + 1)) for i in range(16)])))
-        return facts
-
-    # phase 1: the peer computes its fork id
-    ex = ctx.executor(loop_bound=20, inline="auto", max_paths=20000, no_inline=[r"get_longest_chain_block_hash_at_block_id$", r"get_latest_block_id$", r"hex::"])
+    ex = ctx.executor(loop_bound=20, inline="auto", max_paths=20000, no_inline=[r"get_longest_chain_block_hash_at_block_id$", r"get_latest_block_id$", r"hex::", r"to_hex"])
     ex.on_call = ring_hook("peer", P)
     st = S.State()
     st.pc.extend(pre)
@@ -80,7 +81,6 @@ def c15_ancestor_not_later(ctx, v):
         fid = a.value.payload["Some"].fields[0] if isinstance(a.value, S.EnumV) and a.value.variant == "Some" else None
         if fid is None:
             return v.undecided("fork id not Some")
-        # phase 2: I estimate the ancestor from it
         ex.on_call = ring_hook("mine", M)
         st2 = S.State()
         st2.pc.extend(a.pc)
@@ -99,13 +99,12 @@ def c15_ancestor_not_later(ctx, v):
             if o.kind != "return":
                 continue
             res = o.value
-            distinct = chain_facts(o.events)
-            r, m = ex.model_for(o.pc + distinct, z3.UGT(res.bv, f))
+            r, m = ex.model_for(o.pc, z3.UGT(res.bv, f))
             v.queries += 1
             if r == z3.sat:
-                v.fail("the estimated shared ancestor %d is later than the true fork point %d (blocks between them would be skipped)" % (m.eval(res.bv, model_completion=True).as_long(), m.eval(f, model_completion=True).as_long()),
-                       dict(peer_tip=m.eval(P, model_completion=True).as_long(), my_tip=m.eval(M, model_completion=True).as_long(), fork_point=m.eval(f, model_completion=True).as_long(),
-                            estimate=m.eval(res.bv, model_completion=True).as_long()))
+                ev = lambda x: m.eval(x, model_completion=True).as_long()
+                v.fail("the estimated shared ancestor %d is later than the true fork point %d (blocks between them would be skipped)" % (ev(res.bv), ev(f)),
+                       dict(peer_tip=ev(P), my_tip=ev(M), fork_point=ev(f), estimate=ev(res.bv)))
             elif r == z3.unknown:
                 return v.undecided("solver unknown")
             else:
